@@ -355,7 +355,8 @@ PLAN = {
     'C10': dict(
         level='model_checking', engine='kani',
         kani=klex_suite('K-lex literals and ignore(case)', SPEC_KINDS, ['L1', 'L2', 'I1', 'I2'],
-                        covers=['token produced', 'error produced'], quick_per_def=24, quick_cost=30,
+                        covers=['token produced', 'error produced'], quick_per_def=24, quick_cost=100,
+                        always=['ctx_I2__09d_q_s0', 'ctx_I2__09_q_s0', 'ctx_I2__00_q_s0'],
                         bounded=BOUND_NOTE % 'L1 (metacharacter literals, bytes >= 0x80), L2 (multi-byte literals), I1 (ignore(case) on token, regex, skip: Unicode simple folding), I2 (byte-string literals: ASCII folding)'),
         technique='bounded model checking (Kani) of corpus definitions against hand-expanded literal / case-variant specifications',
         level_text='Each #[token] literal of the corpus matches exactly its bytes; ignore(case) on token, regex and skip patterns matches exactly the hand-expanded case-variant language. Bounded, sample literals.',
